@@ -13,7 +13,7 @@ DEFAULTS = dict(
     state_internal=0.3, sm_internal=0.3, completion=0.0, history=0.0, pseudo=0.0,
     deferral=0.0, flags=0.0, blocking=0.0, hierarchy_events=0.0, kleene=0.0,
     scripts=False, outer_rows_on_sub=0.8, policy='default', serialize=False,
-    subs_per_level=(1, 1), action_max=2, row_budget=18,
+    subs_per_level=(1, 1), action_max=2, row_budget=18, visitable=False,
 )
 
 PROFILES = {
@@ -23,6 +23,8 @@ PROFILES = {
     'completion': dict(completion=0.6, state_internal=0.0, sm_internal=0.0, depth=(1, 2)),
     'history': dict(history=1.0, depth=(2, 2), row_budget=13, state_internal=0.0, sm_internal=0.0, regions=(1, 3)),
     'pseudo': dict(pseudo=1.0, history=0.4, row_budget=10, states_per_region=(2, 2), depth=(2, 3), state_internal=0.0, sm_internal=0.0, regions=(1, 3)),
+    'intro': dict(depth=(1, 3), regions=(1, 3), completion=0.3, history=0.5, pseudo=0.6, row_budget=10, states_per_region=(2, 3),
+                  state_internal=0.2, sm_internal=0.0, scripts=True, visitable=True),
     'flags': dict(flags=1.0, depth=(1, 3), state_internal=0.0, sm_internal=0.0),
     'blocking': dict(blocking=1.0, depth=(1, 1), regions=(1, 3), flags=0.5, state_internal=0.0, sm_internal=0.0),
     'queue': dict(scripts=True, depth=(1, 2), regions=(1, 2), completion=0.2, state_internal=0.2, sm_internal=0.0),
@@ -193,14 +195,14 @@ class Gen:
         depth = self.ri(p['depth'])
         root = self.machine(1, depth, 'Root', events)
         sp = dict(profile=self.profile, events=[dict(name=e) for e in events], flags=[], root=root,
-                  features=dict(scripts=bool(p['scripts']), serialize=bool(p['serialize'])))
+                  features=dict(scripts=bool(p['scripts']), serialize=bool(p['serialize']), visitable=bool(p['visitable'])))
         if p['flags'] > 0:
             self.add_flags(sp)
         if p['blocking'] > 0:
             self.add_blocking(sp)
         if p['history'] > 0:
             self.ensure_sub_cycles(sp)
-        if p['pseudo'] > 0:
+        if p['pseudo'] > 0 and self.r.random() < p['pseudo']:
             self.add_pseudo(sp)
         if p['deferral'] > 0:
             self.add_deferral(sp)
